@@ -71,6 +71,16 @@ check("C06", "runtime monitoring: post-condition monitors on Source._build_stati
       "Trusted: the generative model in /verif/lwverif/srcref.py (structure differs from the implementation's "
       "coefficient table) and own permanent; <=4 injected photons, <=10 modes incl. loss.", "DESIGN.md 4 C06")
 
+check("C07", "runtime monitoring: per-sample safety post-conditions on the five sampling methods, per-event invariants and "
+      "conditional histograms on Detector._get_output, and exact binomial conformance tests of recorded counts against "
+      "the exact detector-model push-forward of the implementation's own distribution",
+      "Held on the configurations explored: every returned state respects post-selection, min_detection, detector mode "
+      "and herald removal (known finding: Sampler.sample on heralded circuits), N-outputs methods return exactly N, "
+      "same seed reproduces, and counts/accepted fractions/detector histograms conform to the exact distribution "
+      "(per-test alpha 1e-15). Convergence is restated as finite-sample conformance.",
+      "Trusted: detector reference in /verif/lwverif/detref.py, scipy binomial tails; base distribution taken from the "
+      "implementation (C04/C06).", "DESIGN.md 4 C07")
+
 NOT_APPLICABLE = []
 _EXPLICIT_NA = {}
 for line in open("/verif/properties.jsonl"):
